@@ -73,6 +73,8 @@ RACESTRESS_FAMILY = {"quick": 0, "thorough": 2500, "search": 700, "runner": "tes
 
 
 def sig_flight(rec):
+    if rec.get("family") == "maxage":
+        return sig_c03(rec)
     if rec.get("family") == "racestress":
         return "racestress:" + str((rec.get("case") or {}).get("kind"))
     case = rec.get("case") or {}
@@ -97,8 +99,9 @@ SYS_TRUST = [
     "Go runtime: channel rendezvous, deferred calls run on error return and panic, testing/synctest's fake clock and quiescence detection",
 ]
 
-def sys_prop(assumptions, explanation, with_wakeup=False, quick=120, with_choreo=False, with_stress=False):
+def sys_prop(assumptions, explanation, with_wakeup=False, quick=120, with_choreo=False, with_stress=False, extra=None):
     fams = {"flight": flight_family(quick, 1500, 300)}
+    fams.update(extra or {})
     if with_wakeup:
         fams["wakeup"] = WAKEUP_FAMILY
     if with_choreo:
@@ -201,7 +204,9 @@ PROPS = {
     },
     "C04": sys_prop(["whole-second clock granularity (the code reads time.Now().Unix()); the store is not forged (lost / truncated / invalid records are allowed)",
                      "Age() is a second lock acquisition after Get(): the cross-epoch case is exhibited in the model and labelled partial"],
-                    "hit_is_installed_and_fresh via the provenance invariant; hits do not extend; refetch after expiry; Age value.", with_wakeup=True),
+                    "hit_is_installed_and_fresh via the provenance invariant; hits do not extend; refetch after expiry; Age value.", with_wakeup=True,
+                    # the lifetime T itself: what getCacheMaxAge hands to the cache for every header set (s-maxage / max-age minus the upstream's Age)
+                    extra={"maxage": {"quick": 1500, "thorough": 30000, "search": 6000}}),
     "C07": sys_prop(["hit-for-pass period in whole seconds as converted by cache.convertConfigs"],
                     "step-level theorems: marks, immediate pass without queueing, own answer, lapse; three simultaneous passes exhibited."),
     "C08": sys_prop(["store Set/Get/Delete are atomic per key and Get returns the last successful Set or not-found (badger transactions: trusted); process start-up and badger recovery are runtime behaviour outside the model",
